@@ -141,7 +141,8 @@ class Builder:
                         else:
                             self.setattr_raw(o, f, v)
                 if isinstance(o, Rec):
-                    o.extend(["x"] * int(getattr(o, "g_len", 0) or 0))
+                    gl = int(getattr(o, "g_len", 0) or 0)
+                    o.extend(([f"rec{i}"] + ["x"] * (gl - 1)) if gl > 0 else [])
                     o.g_idx = i
                 out.append([o, memo] if typ.startswith("pairlist[") else o)
             self.objlists.append((cn, out, typ.startswith("pairlist[")))
@@ -375,6 +376,7 @@ def spec_env(window):
             "iff": lambda a, b: bool(a) == bool(b), "tag": tag, "truthy": bool, "str_of": lambda v: f"{v}",
             "strip": lambda s: s.strip(), "seq_contains": lambda c, x: x in c, "same": lambda a, b: a is b or a == b,
             "is_fresh": lambda v: True, "strictly_increasing": lambda xs: all(a < b for a, b in zip(xs, xs[1:])),
+            "iota": lambda k: list(range(max(0, k))),
             "prefix_sum": lambda xs, f, k: sum(_deep_get(x, f) for x in xs[:max(0, k)]), "ufun_bool": ufun, "ufun_val": ufun, "ufun_int": ufun, "ufun_str": ufun}
 
 
@@ -436,8 +438,13 @@ def run_case(job, case, builder, unit_cls, fn_name, params, kwonly):
         outl = []
         for it in lst or []:
             k = next((j for j, r in enumerate(recs) if r is it), None)
+            if k is None and isinstance(it, list) and it and isinstance(it[0], str) and it[0].startswith("rec"):
+                # an equal copy of a record (collect() copies lines): recognised by its first cell
+                k = next((j for j, r in enumerate(recs) if list(r) == list(it)), None)
             outl.append(k if k is not None else -1)
         return outl
+    if job.get("result_records") and isinstance(result, list):
+        result = to_indices(result)
     if job.get("yield_to"):
         tgt = ast.parse(job["yield_to"], mode="eval").body
         base = eval(compile(ast.Expression(tgt.value), "<y>", "eval"), {}, env)
